@@ -174,6 +174,20 @@ func c14EntryCheck(c *core.Ctx, cases []c14EntryCase) []core.Outcome {
 		if err, _ := c14EntryCall(cs.Entry, re, "!xxaab xab"); err != nil {
 			o.Fail = &core.Failure{Kind: "impl-violation", Key: "Ep:spurious:" + cs.Entry, Summary: fmt.Sprintf("%s with an hour of MatchTimeout on an instant search returned an error", cs.Entry), Expected: "nil", Got: err.Error()}
 		}
+		if cs.Entry == "FindNextMatch" && o.Fail == nil {
+			// a continuation after an idle period longer than the timeout: every search arms its own deadline, the
+			// one left behind by the search that produced the previous match has long passed
+			re := regexp2.MustCompile(`\w+`)
+			re.MatchTimeout = 30 * time.Millisecond
+			m, err := re.FindStringMatch("alpha beta gamma")
+			for k := 0; k < 2 && err == nil && m != nil; k++ {
+				time.Sleep(re.MatchTimeout + 25*time.Millisecond)
+				m, err = re.FindNextMatch(m)
+			}
+			if err != nil {
+				o.Fail = &core.Failure{Kind: "impl-violation", Key: "Ep:stale-deadline", Summary: "FindNextMatch on an instant search, called 55ms after the previous match with MatchTimeout 30ms, returned an error: the continuation ran against the deadline of the earlier search", Expected: "nil", Got: err.Error()}
+			}
+		}
 	}
 	return outs
 }
@@ -188,7 +202,7 @@ func c14EntryLeg(c *core.Ctx) {
 	}
 	core.RunLeg(c, core.Leg[c14EntryCase]{
 		Name: "Ep", Kind: "oracle(every entry point reports the timeout)",
-		Rule:   "entry points MatchString, MatchRunes, FindStringMatch, FindRunesMatch, Find*MatchStartingAt, the FindNextMatch chain, FindAllStringIndex, FindAllRunesIndex, Replace (all / count 1), ReplaceFunc, Split (all / count 2), each on a search that needs seconds ((a+)+$ on the calibrated input, or the cubic scan spread over a thousand start positions) with MatchTimeout 30-89ms — as the first search of the call, or (entry points that search repeatedly) as the second one after an instant match: the call must return the timeout error, not earlier than d - 2 ticks - 10ms, not later than 2d + 3 ticks + allowance; the same entry point on an instant search with an hour of timeout returns no error. A finding must recur in 3 of 3 executions. The corpus runs every entry point in both positions first. non-trivial = all",
+		Rule:   "entry points MatchString, MatchRunes, FindStringMatch, FindRunesMatch, Find*MatchStartingAt, the FindNextMatch chain, FindAllStringIndex, FindAllRunesIndex, Replace (all / count 1), ReplaceFunc, Split (all / count 2), each on a search that needs seconds ((a+)+$ on the calibrated input, or the cubic scan spread over a thousand start positions) with MatchTimeout 30-89ms — as the first search of the call, or (entry points that search repeatedly) as the second one after an instant match: the call must return the timeout error, not earlier than d - 2 ticks - 10ms, not later than 2d + 3 ticks + allowance; the same entry point on an instant search with an hour of timeout returns no error, and a FindNextMatch continuation made 55ms after the previous match under MatchTimeout 30ms returns none either (every search arms its own deadline). A finding must recur in 3 of 3 executions. The corpus runs every entry point in both positions first. non-trivial = all",
 		Corpus: corpus, N: c.N(0, 120), Gen: c14EntryGen, Check: c14EntryCheck, Batch: 8,
 	})
 }
